@@ -255,11 +255,13 @@ pub fn run_case(case: &SimCase, base: &std::path::Path) -> SimResult {
             g += 1;
         }
     }
-    // topics are registered sequentially through node 1 before the generated phase
+    // topics are registered sequentially through the metadata leader (its metadata already holds
+    // every node address, so the initial segment leader is a function of the topic name and the
+    // cluster size) before the generated phase
     {
-        let conn = tokio::net::connect("node1:8080");
+        let conn = tokio::net::connect(&format!("node{rl}:8080"));
         let Some(mut conn) = conn else {
-            res.setup_error = Some("no listener on node 1".into());
+            res.setup_error = Some("no listener on the metadata leader".into());
             return res;
         };
         let topics = case.topics.clone();
